@@ -16,6 +16,8 @@ target = os.path.join(ROOT, spec.get("target_dir", "target"))
 bins = [spec["bin"]] + [p["bin"] for p in spec.get("more_parts", [])]
 if len(sys.argv) > 4:
     bins = [sys.argv[4]]
+# the binaries must be those of the current trees (a seeded-change run may have left others behind)
+subprocess.run(["cargo", "build", "--release", "--offline", "-q"], cwd="/verif", check=True)
 all_ok = True
 for bin_name in bins:
   binary = os.path.join(target, "release", bin_name)
